@@ -14,9 +14,9 @@
     the fragment ([Stuck]: Python numbers raise ZeroDivisionError, numpy
     numbers give inf/nan/0 with a warning).  [round] is half-to-even ([rhe]).
 
-    Sequences: [VL] is a Python list or tuple (the two are not distinguished;
-    the serialiser admits [.append] and item assignment only on variables
-    that hold a fresh list / array).  [VA] is a numpy array: 1-D when its
+    Sequences: [VL] is a Python list, [VT] a tuple (iterators such as
+    [reversed(..)] / [enumerate(..)] are rendered as lists: they are only
+    iterated or converted).  [VA] is a numpy array: 1-D when its
     elements are scalars, 2-D when they are [VA] rows.  Only arrays
     broadcast; int arrays and float arrays are told apart by their elements
     ([np.array] unifies them, assignment into a float array casts).
@@ -39,7 +39,8 @@ Inductive val :=
 | VZ (z : Z)
 | VQ (q : Q)
 | VS (s : string)
-| VL (l : list val)           (* list / tuple *)
+| VL (l : list val)           (* list *)
+| VT (l : list val)           (* tuple *)
 | VA (l : list val).          (* numpy array *)
 
 Inductive binop := Add | Sub | Mul | Div | FloorDiv | Mod.
@@ -57,7 +58,8 @@ Inductive expr :=
 | EIsNone (a : expr) (negated : bool)        (* x is None / x is not None *)
 | EIn (a : expr) (l : list expr) (negated : bool)
 | ECall (f : string) (args : list expr)      (* f(args); methods and attributes are calls of "meth:m" / "attr:a" on the object *)
-| ETuple (l : list expr)
+| ETuple (l : list expr)                     (* (a, b, ...) *)
+| EList (l : list expr)                      (* [a, b, ...] *)
 | EIndex (a : expr) (i : Z)                  (* a[i], i >= 0 a literal *)
 | EIdx (a : expr) (i : expr)                 (* a[i], i computed (negative: from the end) *)
 | ESliceTo (a : expr) (k : Z)                (* a[:k]  (k = -1: all but the last; k >= 0: first k) *)
@@ -147,7 +149,7 @@ Definition binop_val (op : binop) (a b : val) : option val :=
   | _, _ => arith op a b
   end.
 
-Definition cmp_val (op : cmpop) (a b : val) : option bool :=
+Definition cmp_scalar (op : cmpop) (a b : val) : option bool :=
   match a, b with
   | VS x, VS y => match op with CEq => Some (String.eqb x y) | CNe => Some (negb (String.eqb x y)) | _ => None end
   | VZ x, VZ y =>
@@ -162,6 +164,27 @@ Definition cmp_val (op : cmpop) (a b : val) : option bool :=
                 | CEq => Qeqb x y | CNe => negb (Qeqb x y) end)
       | _, _ => None
       end
+  end.
+
+(** == on tuples of scalars: same length and equal elements *)
+Fixpoint tuple_eqb (l r : list val) : option bool :=
+  match l, r with
+  | [], [] => Some true
+  | x :: l', y :: r' =>
+      match cmp_scalar CEq x y, tuple_eqb l' r' with
+      | Some b, Some c => Some (b && c)
+      | _, _ => None
+      end
+  | _, _ => if forallb (fun v => match v with VZ _ | VQ _ => true | _ => false end) (l ++ r) then Some false else None
+  end.
+
+Definition cmp_val (op : cmpop) (a b : val) : option bool :=
+  match a, b with
+  | VT l, VT r => match op with
+                  | CEq => tuple_eqb l r
+                  | CNe => option_map negb (tuple_eqb l r)
+                  | _ => None end
+  | _, _ => cmp_scalar op a b
   end.
 
 (** comparison with array-scalar broadcasting (a bool array) *)
@@ -182,13 +205,14 @@ Definition truthy (v : val) : option bool :=
   | VQ q => Some (negb (Qeqb q 0))
   | VS s => Some (negb (String.eqb s ""))
   | VL l => Some (match l with [] => false | _ :: _ => true end)
+  | VT l => Some (match l with [] => false | _ :: _ => true end)
   | VA _ => None
   end.
 
 Definition unQ (l : list val) : option (list Q) := map_opt toQ l.
 
 Definition seq_of (v : val) : option (list val) :=
-  match v with VL l => Some l | VA l => Some l | _ => None end.
+  match v with VL l => Some l | VT l => Some l | VA l => Some l | _ => None end.
 
 Definition is_scalar (v : val) : bool :=
   match v with VB _ | VZ _ | VQ _ => true | _ => false end.
@@ -198,6 +222,7 @@ Fixpoint has_Q (v : val) : bool :=
   match v with
   | VQ _ => true
   | VL l => existsb has_Q l
+  | VT l => existsb has_Q l
   | VA l => existsb has_Q l
   | _ => false
   end.
@@ -209,6 +234,7 @@ Fixpoint to_array (cast : bool) (v : val) : option val :=
   | VQ q => Some (VQ q)
   | VB b => if cast then None else Some (VB b)
   | VL l => option_map VA (map_opt (to_array cast) l)
+  | VT l => option_map VA (map_opt (to_array cast) l)
   | VA l => option_map VA (map_opt (to_array cast) l)
   | _ => None
   end.
@@ -218,6 +244,7 @@ Fixpoint to_array (cast : bool) (v : val) : option val :=
 Fixpoint shape_of (v : val) : list nat :=
   match v with
   | VL l => List.length l :: match l with x :: _ => shape_of x | [] => [] end
+  | VT l => List.length l :: match l with x :: _ => shape_of x | [] => [] end
   | VA l => List.length l :: match l with x :: _ => shape_of x | [] => [] end
   | _ => []
   end.
@@ -234,6 +261,8 @@ Fixpoint rect (v : val) : bool :=
   match v with
   | VL l => forallb rect l &&
             match l with x :: t => forallb (fun y => shape_eqb (shape_of y) (shape_of x)) t | [] => true end
+  | VT l => forallb rect l &&
+            match l with x :: t => forallb (fun y => shape_eqb (shape_of y) (shape_of x)) t | [] => true end
   | VA l => forallb rect l &&
             match l with x :: t => forallb (fun y => shape_eqb (shape_of y) (shape_of x)) t | [] => true end
   | _ => true
@@ -241,7 +270,7 @@ Fixpoint rect (v : val) : bool :=
 
 Definition np_array (v : val) : option val :=
   match v with
-  | VL _ | VA _ => if rect v then to_array (has_Q v) v else None
+  | VL _ | VT _ | VA _ => if rect v then to_array (has_Q v) v else None
   | _ => None
   end.
 
@@ -301,7 +330,7 @@ Fixpoint ones_like (v : val) : option val :=
   end.
 
 Fixpoint enumerate_from (i : Z) (l : list val) : list val :=
-  match l with [] => [] | x :: t => VL [VZ i; x] :: enumerate_from (i + 1) t end.
+  match l with [] => [] | x :: t => VT [VZ i; x] :: enumerate_from (i + 1) t end.
 
 Definition all_scalar (l : list val) : bool := forallb is_scalar l.
 
@@ -312,17 +341,20 @@ Definition unB (l : list val) : option (list bool) :=
 Definition call (f : string) (args : list val) : option (option val) :=   (* None: stuck; Some None: raises *)
   let is := String.eqb f in
   if is "len" then match args with [VL l] => Some (Some (VZ (Z.of_nat (List.length l))))
+                                 | [VT l] => Some (Some (VZ (Z.of_nat (List.length l))))
                                  | [VA l] => Some (Some (VZ (Z.of_nat (List.length l)))) | _ => None end
   else if is "round" then match args with [v] => match toQ v with Some q => Some (Some (VZ (rhe q))) | None => None end | _ => None end
   else if is "int" then match args with [VZ z] => Some (Some (VZ z)) | _ => None end
   else if is "abs" then match args with [VZ z] => Some (Some (VZ (Z.abs z))) | [VQ q] => Some (Some (VQ (Qabs q))) | _ => None end
-  else if is "reversed" then match args with [VL l] => Some (Some (VL (rev l))) | _ => None end
-  else if is "enumerate" then match args with [VL l] => Some (Some (VL (enumerate_from 0 l))) | _ => None end
-  else if is "tuple" then match args with [VL l] => Some (Some (VL l)) | _ => None end
-  else if is "list" then match args with [VL l] => Some (Some (VL l)) | _ => None end
+  else if is "reversed" then match args with [VL l] => Some (Some (VL (rev l))) | [VT l] => Some (Some (VL (rev l))) | _ => None end
+  else if is "enumerate" then match args with [VL l] => Some (Some (VL (enumerate_from 0 l)))
+                                            | [VT l] => Some (Some (VL (enumerate_from 0 l))) | _ => None end
+  else if is "tuple" then match args with [VL l] => Some (Some (VT l)) | [VT l] => Some (Some (VT l)) | _ => None end
+  else if is "list" then match args with [VL l] => Some (Some (VL l)) | [VT l] => Some (Some (VL l)) | _ => None end
   else if is "np.isscalar" then
     match args with
     | [VL _] => Some (Some (VB false))
+    | [VT _] => Some (Some (VB false))
     | [VA _] => Some (Some (VB false))
     | [VZ _] => Some (Some (VB true))
     | [VQ _] => Some (Some (VB true))
@@ -386,7 +418,7 @@ Definition call (f : string) (args : list val) : option (option val) :=   (* Non
     match args with
     | [VA x; VA y] =>
         if all_scalar x && all_scalar y
-        then Some (Some (VL [VA (map (fun _ => VA x) y); VA (map (fun b => VA (map (fun _ => b) x)) y)]))
+        then Some (Some (VT [VA (map (fun _ => VA x) y); VA (map (fun b => VA (map (fun _ => b) x)) y)]))
         else None
     | _ => None
     end
@@ -399,10 +431,10 @@ Definition call (f : string) (args : list val) : option (option val) :=   (* Non
     end
   else if is "isinstance:str" then
     match args with [VS _] => Some (Some (VB true)) | [_] => Some (Some (VB false)) | _ => None end
-  else if is "isinstance:tuple" then     (* lists and tuples are not distinguished: stuck on a [VL] *)
-    match args with [VL _] => None | [_] => Some (Some (VB false)) | _ => None end
+  else if is "isinstance:tuple" then
+    match args with [VT _] => Some (Some (VB true)) | [_] => Some (Some (VB false)) | _ => None end
   else if is "isinstance:list" then
-    match args with [VL _] => None | [_] => Some (Some (VB false)) | _ => None end
+    match args with [VL _] => Some (Some (VB true)) | [_] => Some (Some (VB false)) | _ => None end
   else if is "meth:ravel" then
     match args with [VA l] => if all_scalar l then Some (Some (VA l)) else None | _ => None end
   else if is "attr:size" then
@@ -507,6 +539,19 @@ Fixpoint eval (env : list (string * val)) (e : expr) {struct e} : option (option
                            | Some None => Some None
                            | None => None end
                end) l with
+      | Some (Some vs) => ret (VT vs)
+      | Some None => Some None
+      | None => None
+      end
+  | EList l =>
+      match (fix go (l : list expr) : option (option (list val)) :=
+               match l with
+               | [] => Some (Some [])
+               | a :: t => match eval env a with
+                           | Some (Some v) => match go t with Some (Some r) => Some (Some (v :: r)) | o => o end
+                           | Some None => Some None
+                           | None => None end
+               end) l with
       | Some (Some vs) => ret (VL vs)
       | Some None => Some None
       | None => None
@@ -539,6 +584,8 @@ Fixpoint eval (env : list (string * val)) (e : expr) {struct e} : option (option
       match eval env a with
       | Some (Some (VL l)) => if (k =? -1)%Z then ret (VL (removelast l))
                               else if (0 <=? k)%Z then ret (VL (firstn (Z.to_nat k) l)) else None
+      | Some (Some (VT l)) => if (k =? -1)%Z then ret (VT (removelast l))
+                              else if (0 <=? k)%Z then ret (VT (firstn (Z.to_nat k) l)) else None
       | Some (Some (VA l)) => if (k =? -1)%Z then ret (VA (removelast l))
                               else if (0 <=? k)%Z then ret (VA (firstn (Z.to_nat k) l)) else None
       | Some None => Some None
@@ -547,6 +594,7 @@ Fixpoint eval (env : list (string * val)) (e : expr) {struct e} : option (option
   | ESliceFrom a k =>
       match eval env a with
       | Some (Some (VL l)) => if (0 <=? k)%Z then ret (VL (skipn (Z.to_nat k) l)) else None
+      | Some (Some (VT l)) => if (0 <=? k)%Z then ret (VT (skipn (Z.to_nat k) l)) else None
       | Some (Some (VA l)) => if (0 <=? k)%Z then ret (VA (skipn (Z.to_nat k) l)) else None
       | Some None => Some None
       | _ => None
@@ -797,6 +845,13 @@ Fixpoint val_eqb (a b : val) : bool :=
   | VQ x, VQ y => Qeqb x y
   | VS x, VS y => String.eqb x y
   | VL l, VL r =>
+      (fix go (l r : list val) : bool :=
+         match l, r with
+         | [], [] => true
+         | x :: l', y :: r' => val_eqb x y && go l' r'
+         | _, _ => false
+         end) l r
+  | VT l, VT r =>
       (fix go (l r : list val) : bool :=
          match l, r with
          | [], [] => true
